@@ -21,7 +21,7 @@ import (
 
 // an update in which every member of the stored host set votes honestly at logical time ts on
 // exactly the given pairs (index 0 = the reserved timestamp pair) plus the given raw extra ids
-func c18HonestOracleOp(g *c15Gen, ts int64, pairs []int, extraIDs []uint64, note string) C15Op {
+func c18HonestOracleOp(g *c15Gen, ts int64, pairs []int, extraIDs []uint64, note string, perVal ...int) C15Op {
 	ce := g.ce
 	o := C15Op{Kind: "oracle", Blk: g.blk, SenderID: 1, Sender: ce.E.User(1).Str, Height: uint64(g.setH + 1), Round: 0, Note: note}
 	var votes []C15Vote
@@ -37,6 +37,11 @@ func c18HonestOracleOp(g *c15Gen, ts int64, pairs []int, extraIDs []uint64, note
 		}
 		for _, id := range extraIDs {
 			m[id] = c15EncodePrice(big.NewInt(77))
+		}
+		if len(perVal) > 0 {
+			for x := 0; x < perVal[0]; x++ { // ids that only this validator reports
+				m[g.r.U64()] = c15EncodePrice(big.NewInt(int64(1 + g.r.Intn(1000))))
+			}
 		}
 		ext := ce.encodeExt(m)
 		votes = append(votes, C15Vote{Addr: u.Addr, Flag: int32(cmtproto.BlockIDFlagCommit), Ext: ext,
@@ -106,8 +111,10 @@ func c18GenOracle(seed uint64, id int, family string, base int64, nOps int, mode
 	}
 	do(C15Op{Kind: "execs", Execs: []uint64{1, 2}}, false)
 	do(C15Op{Kind: "info", Oracle: true, Chain: "l1chain", Client: "07-tendermint-0", ClientID: 1}, false)
-	for _, p := range c18AllPairs {
-		do(C15Op{Kind: "mkpair", Pair: p}, false)
+	if mode != "empty-store" {
+		for _, p := range c18AllPairs {
+			do(C15Op{Kind: "mkpair", Pair: p}, false)
+		}
 	}
 	var entries []c15Entry
 	for i := 0; i < nVals; i++ {
@@ -120,11 +127,23 @@ func c18GenOracle(seed uint64, id int, family string, base int64, nOps int, mode
 	g.applySet(first)
 	fresh := func() int64 { g.tsNext += 1000 + int64(r.Intn(1000)); return g.tsNext }
 	for i := 0; i < nOps; i++ {
-		switch mode {
-		case "unknown-ids": // known-finding replay A
+		switch mode { // shapes of the regression replays (c18OracleGasReplays)
+		case "unknown-ids":
 			do(c18HonestOracleOp(g, fresh(), []int{0, 1, 2, 3, 4}, []uint64{r.U64(), r.U64()}, "c18-honest-with-unknown-ids"), true)
 			continue
-		case "all-known": // known-finding replay B
+		case "many-unknown": // six foreign ids in every vote, three more that differ per validator
+			do(c18HonestOracleOp(g, fresh(), c18AllPairs, []uint64{r.U64(), r.U64(), r.U64(), r.U64(), r.U64(), r.U64()}, "c18-honest-many-unknown-ids", 3), true)
+			continue
+		case "unknown-with-ts": // besides the timestamp pair only foreign ids
+			do(c18HonestOracleOp(g, fresh(), []int{0}, []uint64{r.U64(), r.U64(), r.U64(), r.U64()}, "c18-timestamp-and-unknown-ids-only", 2), true)
+			continue
+		case "unknown-only": // no id of the store at all: refused (no timestamp), gas still compared
+			do(c18HonestOracleOp(g, fresh(), nil, []uint64{r.U64(), r.U64(), r.U64()}, "c18-unknown-ids-only", 2), false)
+			continue
+		case "empty-store": // the oracle store has no currency pair: every id is foreign
+			do(c18HonestOracleOp(g, fresh(), c18AllPairs, []uint64{r.U64(), r.U64()}, "c18-honest-on-empty-oracle-store", 1), false)
+			continue
+		case "all-known":
 			do(c18HonestOracleOp(g, fresh(), c18AllPairs, nil, "c18-honest"), true)
 			continue
 		}
@@ -344,64 +363,70 @@ func sortedU64Keys(m map[uint64][]byte) []uint64 {
 	return ks
 }
 
-// A: votes that carry price ids unknown to the oracle store; B: every update pre-executed once on a
-// discarded branch at the same height.  Both change only the GAS of MsgUpdateOracle (the id cache of
-// connect's HashCurrencyPairStrategy, held by the L2OracleHandler in process memory and reset per
-// block height, decides how often GetAllCurrencyPairs is walked).
+// Regression replays of defect D15 (repaired in /repo by 629119a): the L2OracleHandler used to hold
+// one connect HashCurrencyPairStrategy whose per-height id cache lived in process memory and paid a
+// GetAllCurrencyPairs walk on every miss, so the GAS of MsgUpdateOracle depended (A) on Go map
+// iteration order whenever a vote carried an id outside the oracle store and (B) on an earlier,
+// discarded execution at the same height.  Several vote shapes; each is executed 6 times on fresh
+// instances and once more with every oracle update pre-executed on discarded branches.
 func c18KnownOracleGas(rep *Report, seed uint64, id *int) {
 	base := int64(1000000000000000000)
-	{
+	shapes := []string{"unknown-ids", "many-unknown", "unknown-with-ts", "unknown-only", "empty-store", "all-known"}
+	failsA, failsB := false, false
+	for si, shape := range shapes {
 		*id++
-		h := c18GenOracle(seed*1000+7901, *id, "known finding A", base, 5, "unknown-ids")
+		h := c18GenOracle(seed*1000+uint64(7901+si), *id, "regression replay: "+shape, base, 5, shape)
+		human := append([]string{"oracle regression replay, vote shape: " + shape + "; timestamps relative to base"}, h.human(base)...)
 		var runs [][]c18Print
 		for x := 0; x < 6; x++ {
 			runs = append(runs, h.executeOnOwnGoroutine(*id, nil, rep))
 		}
-		fails, other := false, false
-		for x := 1; x < len(runs); x++ {
-			for i := range runs[0] {
-				switch d := runs[0][i].diff(runs[x][i]); d {
-				case "":
-				case "gas":
-					fails = true
-				default:
-					other = true
-				}
-			}
-		}
-		if other {
-			rep.Violate(Violation{Case: *id, Step: 0, What: "replay of known finding A differs in more than gas", Sig: "C18:nondeterministic-oracle", Ops: h.human(base)})
-		}
-		rep.KnownChecked = append(rep.KnownChecked, KnownResult{ID: c18SigOracleGasMapOrder, StillFails: fails,
-			What: "5 well-formed oracle updates whose vote extensions carry ids of pairs that are not in the oracle store, executed 6 times on fresh instances: gas used differs between executions"})
-		rep.Ops += len(h.ops) * 6
-	}
-	{
-		*id++
-		h := c18GenOracle(seed*1000+7902, *id, "known finding B", base, 4, "all-known")
-		plain := h.executeOnOwnGoroutine(*id, nil, rep)
 		plan := make([]int, len(h.ops))
 		for i, o := range h.ops {
 			if o.Kind == "oracle" {
-				plan[i] = 1
+				plan[i] = 1 + i%2
 			}
 		}
 		spec := h.executeOnOwnGoroutine(*id, plan, rep)
-		fails, other := false, false
-		for i := range plain {
-			switch d := plain[i].diff(spec[i]); d {
-			case "":
-			case "gas":
-				fails = true
-			default:
-				other = true
+		report := func(i int, d, sig, what string, a, b c18Print) {
+			rep.Violate(Violation{Case: *id, Step: i + 1, What: what, Sig: sig, Ops: human[:i+2], Detail: map[string]interface{}{"a": a, "b": b, "differs_in": d}})
+		}
+	plain:
+		for x := 1; x < len(runs); x++ {
+			for i := range runs[0] {
+				if d := runs[0][i].diff(runs[x][i]); d == "gas" {
+					failsA = true
+					report(i, d, c18SigOracleGasMapOrder, fmt.Sprintf("oracle update (%s): gas used differs between execution 1 (%d) and execution %d (%d) on fresh instances; nothing else differs", shape, runs[0][i].Gas, x+1, runs[x][i].Gas), runs[0][i], runs[x][i])
+					break plain
+				} else if d != "" {
+					report(i, d, "C18:nondeterministic-"+d, fmt.Sprintf("oracle update (%s): executions 1 and %d differ in %s", shape, x+1, d), runs[0][i], runs[x][i])
+					break plain
+				}
 			}
 		}
-		if other {
-			rep.Violate(Violation{Case: *id, Step: 0, What: "replay of known finding B differs in more than gas", Sig: "C18:depends-on-process-history", Ops: h.human(base)})
+		for i := range runs[0] {
+			if d := runs[0][i].diff(spec[i]); d == "gas" {
+				failsB = true
+				report(i, d, c18SigOracleGasHistory, fmt.Sprintf("oracle update (%s): gas used is %d on a fresh instance and %d on one that first executed the same update %dx on a discarded branch at the same height", shape, runs[0][i].Gas, spec[i].Gas, plan[i]), runs[0][i], spec[i])
+				break
+			} else if d != "" {
+				report(i, d, "C18:depends-on-process-history", fmt.Sprintf("oracle update (%s): a pre-execution on a discarded branch changes %s", shape, d), runs[0][i], spec[i])
+				break
+			}
 		}
-		rep.KnownChecked = append(rep.KnownChecked, KnownResult{ID: c18SigOracleGasHistory, StillFails: fails,
-			What: "4 well-formed oracle updates, each first executed once on a discarded cache branch at the same height: the real execution uses less gas than on an instance without the discarded execution"})
-		rep.Ops += len(h.ops) * 2
+		for i, o := range h.ops {
+			if o.Kind == "oracle" {
+				v := "ERR"
+				if runs[0][i].OK {
+					v = "OK"
+				}
+				rep.Hist("oracle-replay:" + shape + ":" + v)
+			}
+		}
+		rep.Ops += len(h.ops) * 7
+		rep.CountCase(strings.Join(human, "\n"), true)
 	}
+	rep.KnownChecked = append(rep.KnownChecked,
+		KnownResult{ID: c18SigOracleGasMapOrder, StillFails: failsA, What: "gas of MsgUpdateOracle differs between executions for votes with ids outside the oracle store (D15, repaired by 629119a)"},
+		KnownResult{ID: c18SigOracleGasHistory, StillFails: failsB, What: "gas of MsgUpdateOracle differs after a discarded pre-execution at the same height (D15, repaired by 629119a)"})
 }
